@@ -25,6 +25,24 @@ def check(prog, run):
     f = rel(prog.mods[fi.mod].path)
     pos, _, _, _ = astq.params_of(fi.node)
     pSval, pSvec, pfreq, psel, pDF = pos[0], pos[1], pos[2], pos[3], pos[4]
+    # the class layer hands THIS call's band and the stored decomposition to the routine
+    run.rule("R-handover", "FDD.mpe / mpe_from_plot pass result.S_val, result.S_vec, result.freq and the DF of this call to FDD_mpe", 4)
+    nh = 0
+    for ci in prog.classes.values():
+        if not ci.mod.startswith("pyoma2.algorithms"):
+            continue
+        for mname in ("mpe", "mpe_from_plot"):
+            m = ci.methods.get(mname)
+            if m is None:
+                continue
+            want = {pSval: {"self.result.S_val"}, pSvec: {"self.result.S_vec"}, pfreq: {"self.result.freq"}, pDF: {"DF"}}
+            if mname == "mpe":
+                want[psel] = {"sel_freq"}
+            for c, p_, ok, detail in astq.handover(prog, m, fi.qual, want):
+                nh += 1
+                run.ob("R-handover", m.qual, f"{mname} -> FDD_mpe.{p_}", ok, detail, witness=detail[:90], file=rel(prog.mods[m.mod].path), node=c, config=p_)
+    if not nh:
+        run.ob("R-handover", "pyoma2.algorithms", "callers of FDD_mpe", None, "no mpe method calling FDD_mpe found")
 
     def ob(rule, role, ok, detail, witness="", node=None):
         run.ob(rule, fi.qual, role, ok, detail, witness=witness or detail[:90], file=f, node=node)
